@@ -19,6 +19,7 @@ type MapLoop struct {
 	Header      *ssa.BasicBlock
 	Body        map[*ssa.BasicBlock]bool // natural loop incl. header (only header if the body never continues)
 	HasBackEdge bool
+	SortCalls   []*ssa.Call // sorter calls found for collected slices
 }
 
 // LoopClass is the verdict for one loop.
@@ -86,6 +87,10 @@ type OrderCfg struct {
 	// OrderedArgs: for a call classified "ordered", the argument objects the
 	// ordered effect lands on (ok=false: not confined to arguments).
 	OrderedArgs func(call ssa.CallInstruction) ([]ssa.Value, bool)
+	// UniqueFields: "<TypeName><projection>" entries (e.g. "PeerStakeInfo.PeerPubkey")
+	// whose value differs for every two distinct entries of the collections
+	// the repository sorts (data invariants confirmed by reading).
+	UniqueFields map[string]string
 	// Sorters are the functions that sort their first argument in place.
 	IsSorter func(callee *ssa.Function) bool
 }
@@ -119,6 +124,11 @@ func elemDerived(l *MapLoop) map[ssa.Value]bool {
 					}
 				}
 				if st, ok := in.(*ssa.Store); ok && d[st.Val] {
+					if ra := rootAlloc(st.Addr); ra != nil && ra != st.Addr && l.Body[ra.Block()] && ra.Block() != l.Header && !d[ra] {
+						// e.g. the varargs array of append(list, elem)
+						d[ra] = true
+						changed = true
+					}
 					if al, isA := st.Addr.(*ssa.Alloc); isA && !d[al] {
 						// loads of this alloc become derived
 						for _, r := range *al.Referrers() {
@@ -162,6 +172,7 @@ func ClassifyMapLoop(p *Prog, l *MapLoop, cfg *OrderCfg) LoopClass {
 		return LoopClass{Kind: "first-element", Pos: pos, Detail: "the loop body never continues: only the first entry in map order is processed"}
 	}
 	collects := map[ssa.Value]bool{}
+	memCollects := map[*ssa.Alloc]bool{}
 	// header phis: accumulators
 	for _, in := range l.Header.Instrs {
 		ph, ok := in.(*ssa.Phi)
@@ -188,6 +199,24 @@ func ClassifyMapLoop(p *Prog, l *MapLoop, cfg *OrderCfg) LoopClass {
 			case *ssa.Store:
 				if al := rootAlloc(x.Addr); al != nil && l.Body[al.Block()] {
 					continue // iteration-local (incl. the varargs array of append)
+				}
+				if isAppendTo(x.Val, x.Addr) {
+					// *addr = append(*addr, ...): a sequence that outlives the
+					// iteration grows once per entry, in map order
+					onlyInvariant := true
+					for _, a := range x.Val.(*ssa.Call).Call.Args[1:] {
+						if derived[a] {
+							onlyInvariant = false
+						}
+					}
+					if onlyInvariant {
+						continue
+					}
+					if al, isA := x.Addr.(*ssa.Alloc); isA {
+						memCollects[al] = true
+						continue
+					}
+					return LoopClass{Kind: "order-sensitive", Pos: pos, Detail: fmt.Sprintf("%s is appended to once per entry, in map order, at %s", AccessPath(x.Addr), p.Rel(x.Pos()))}
 				}
 				if isConst(x.Val) {
 					continue
@@ -288,7 +317,17 @@ func ClassifyMapLoop(p *Prog, l *MapLoop, cfg *OrderCfg) LoopClass {
 			return c
 		}
 	}
-	if len(collects) > 0 {
+	for al := range memCollects {
+		if c := memSortedBeforeUse(p, l, al, cfg); c.Kind != "" {
+			return c
+		}
+	}
+	if len(collects) > 0 || len(memCollects) > 0 {
+		for _, k := range l.SortCalls {
+			if v := CheckComparator(k, func(elem types.Type, path string) bool { return uniqueProjection(l, cfg, elem, path) }); !v.Total {
+				return LoopClass{Kind: "undecided", Pos: pos, Detail: fmt.Sprintf("sorted at %s, but %s", p.Rel(k.Pos()), v.Why)}
+			}
+		}
 		return LoopClass{Kind: "collect-then-sort", Pos: pos}
 	}
 	return LoopClass{Kind: "commutative", Pos: pos}
@@ -523,6 +562,9 @@ func sortedBeforeUse(p *Prog, l *MapLoop, ph ssa.Value, cfg *OrderCfg) LoopClass
 			return LoopClass{Kind: "order-sensitive", Pos: pos, Detail: fmt.Sprintf("the slice collected in map order is used at %s before it is sorted", p.Rel(o.Pos()))}
 		}
 	}
+	if k, ok := sortCall.(*ssa.Call); ok {
+		l.SortCalls = append(l.SortCalls, k)
+	}
 	return LoopClass{}
 }
 
@@ -547,4 +589,183 @@ func DefaultSorter(callee *ssa.Function) bool {
 		return true
 	}
 	return strings.HasPrefix(callee.String(), "slices.Sort")
+}
+
+// memSortedBeforeUse: a slice variable (captured local) collected in map
+// order is, after the loop, sorted before any other use: every load of the
+// variable outside the loop is the first argument of a sorter, or is
+// dominated by such a sorter call; closures capturing the variable must be
+// the comparator of that sorter.
+func memSortedBeforeUse(p *Prog, l *MapLoop, al *ssa.Alloc, cfg *OrderCfg) LoopClass {
+	pos := l.Range.Pos()
+	if al.Referrers() == nil {
+		return LoopClass{}
+	}
+	var sortCall ssa.Instruction
+	var others []ssa.Instruction
+	var closures []*ssa.MakeClosure
+	for _, r := range *al.Referrers() {
+		if l.Body[r.Block()] {
+			continue
+		}
+		switch x := r.(type) {
+		case *ssa.DebugRef:
+		case *ssa.Store:
+			if x.Addr == ssa.Value(al) && !instrReaches(l, x) {
+				continue // initialisation before the loop
+			}
+			others = append(others, x)
+		case *ssa.MakeClosure:
+			closures = append(closures, x)
+		case *ssa.UnOp:
+			if x.Referrers() == nil {
+				continue
+			}
+			var uses func(v ssa.Value, d int)
+			uses = func(v ssa.Value, d int) {
+				if v.Referrers() == nil || d > 3 {
+					return
+				}
+				for _, u := range *v.Referrers() {
+					switch k := u.(type) {
+					case *ssa.DebugRef:
+						continue
+					case *ssa.MakeInterface:
+						uses(k, d+1)
+						continue
+					case *ssa.ChangeType:
+						uses(k, d+1)
+						continue
+					case *ssa.Call:
+						if callee := k.Call.StaticCallee(); callee != nil && cfg.IsSorter(callee) && len(k.Call.Args) > 0 && k.Call.Args[0] == v {
+							if sortCall == nil {
+								sortCall = k
+							}
+							continue
+						}
+						if bi, isB := k.Call.Value.(*ssa.Builtin); isB && (bi.Name() == "len" || bi.Name() == "cap") {
+							continue
+						}
+					}
+					others = append(others, u)
+				}
+			}
+			uses(x, 0)
+		default:
+			others = append(others, r)
+		}
+	}
+	if sortCall == nil {
+		if len(others) == 0 && len(closures) == 0 {
+			return LoopClass{}
+		}
+		where := "?"
+		if len(others) > 0 {
+			where = p.Rel(others[0].Pos())
+		}
+		return LoopClass{Kind: "order-sensitive", Pos: pos, Detail: "the slice collected in map order is used unsorted at " + where}
+	}
+	for _, o := range others {
+		if !instrDominates(sortCall, o) {
+			return LoopClass{Kind: "order-sensitive", Pos: pos, Detail: fmt.Sprintf("the slice collected in map order is used at %s before it is sorted", p.Rel(o.Pos()))}
+		}
+	}
+	if k, ok := sortCall.(*ssa.Call); ok {
+		l.SortCalls = append(l.SortCalls, k)
+	}
+	for _, mc := range closures {
+		isCmp := false
+		for _, a := range sortCall.(*ssa.Call).Call.Args {
+			if a == ssa.Value(mc) {
+				isCmp = true
+			}
+		}
+		if !isCmp && !instrDominates(sortCall, mc) {
+			return LoopClass{Kind: "order-sensitive", Pos: pos, Detail: fmt.Sprintf("the slice collected in map order is captured by a closure at %s before it is sorted", p.Rel(mc.Pos()))}
+		}
+	}
+	return LoopClass{}
+}
+
+// instrReaches: the instruction lies in or after the loop (it is not
+// strictly before the loop header in dominance order).
+func instrReaches(l *MapLoop, in ssa.Instruction) bool {
+	return l.Header.Dominates(in.Block()) || l.Body[in.Block()]
+}
+
+func namedOf(t types.Type) *types.Named {
+	for {
+		switch x := t.(type) {
+		case *types.Pointer:
+			t = x.Elem()
+		case *types.Named:
+			return x
+		default:
+			return nil
+		}
+	}
+}
+
+// uniqueProjection: the projection path of the collected element type differs
+// for every two distinct map entries: listed in the table, or the loop fills
+// that field of the collected element from the range key.
+func uniqueProjection(l *MapLoop, cfg *OrderCfg, elem types.Type, path string) bool {
+	if nm := namedOf(elem); nm != nil {
+		if _, ok := cfg.UniqueFields[nm.Obj().Name()+path]; ok {
+			return true
+		}
+	}
+	if l == nil || strings.Count(path, ".") != 1 {
+		return false
+	}
+	field := strings.TrimPrefix(path, ".")
+	var key ssa.Value
+	for _, ref := range *l.Next.Referrers() {
+		if e, ok := ref.(*ssa.Extract); ok && e.Index == 1 {
+			key = e
+		}
+	}
+	var val ssa.Value
+	for _, ref := range *l.Next.Referrers() {
+		if e, ok := ref.(*ssa.Extract); ok && e.Index == 2 {
+			val = e
+		}
+	}
+	// fromUnique: v is the range key, or a load of a table-listed unique
+	// field of the range value
+	fromUnique := func(v ssa.Value) bool {
+		if key != nil && v == key {
+			return true
+		}
+		u, ok := v.(*ssa.UnOp)
+		if !ok || u.Op != token.MUL || val == nil {
+			return false
+		}
+		fa, isFA := u.X.(*ssa.FieldAddr)
+		if !isFA || fa.X != val {
+			return false
+		}
+		if nm := namedOf(val.Type()); nm != nil {
+			_, listed := cfg.UniqueFields[nm.Obj().Name()+"."+fieldName(fa.X.Type(), fa.Field)]
+			return listed
+		}
+		return false
+	}
+	for b := range l.Body {
+		for _, in := range b.Instrs {
+			st, ok := in.(*ssa.Store)
+			if !ok || !fromUnique(st.Val) {
+				continue
+			}
+			if fa, isFA := st.Addr.(*ssa.FieldAddr); isFA && fieldName(fa.X.Type(), fa.Field) == field {
+				if nm, nm2 := namedOf(fa.X.Type()), namedOf(elem); nm != nil && nm2 != nil && nm.Obj() == nm2.Obj() {
+					return true
+				}
+				if types.Identical(fa.X.Type(), elem) || types.Identical(fa.X.Type(), types.NewPointer(elem)) {
+					return true
+				}
+			}
+		}
+	}
+	return false
 }
